@@ -877,6 +877,11 @@ class Exec:
                 fn_, blk_, span_, si_ = self.cur_site
                 self.sites.append({"fn": fn_.label, "path": fn_.path, "block": blk_, "stmt": si_, "what": "fdiv", "kind": "Div", "operands": {"num": a, "den": b},
                                    "facts": dict(st.facts), "span": span_, "root_depth": self.depth})
+            if op == "Div" and rv.get("operand_ty") != "f64":
+                # integer division truncates: never the field operation, whichever operand is the literal
+                if is_const(a) and is_const(b) and a[1] == b[1] == "int" and b[2] != 0 and a[2] >= 0 and b[2] > 0:
+                    return C("int", a[2] // b[2])
+                return ("idiv", a, b)
             return fold(BINOPS[op], a, b)
         if k == "unop":
             a = self.operand(fr, st, rv["a"])
